@@ -1,0 +1,32 @@
+//go:build verif
+
+package frame
+
+// Verification hooks (build tag "verif"): read-only views used by the /verif harness.
+
+// VerifConsts returns unexported constants of this package.
+func VerifConsts() map[string]uint64 {
+	return map[string]uint64{
+		"frameV1MinSize":       frameV1MinSize,
+		"frameV1BaseSize":      frameV1BaseSize,
+		"frameV1MessageLimit":  frameV1MessageLimit,
+		"frameV1AppendixLimit": frameV1AppendixLimit,
+		"frameV1MACSize":       frameV1MACSize,
+		"frameV1SigSize":       frameV1SigSize,
+		"fiveHByteSize":        fiveHByteSize,
+		"fifteenHByteSize":     fifteenHByteSize,
+		"fiveKByteSize":        fiveKByteSize,
+		"nineKByteSize":        nineKByteSize,
+		"sixtyFiveKByteSize":   sixtyFiveKByteSize,
+	}
+}
+
+// VerifIndices returns the parsed block indexes and the pooling state of the frame.
+func (f *FrameV1) VerifIndices() (messageIndex, authIndex, appendixIndex, psDataOffset, psLen, psCap, dataLen int) {
+	return f.messageIndex, f.authIndex, f.appendixIndex, f.psDataOffset, len(f.pooledSlice), cap(f.pooledSlice), len(f.data)
+}
+
+// VerifPooledSlice returns the pooled slice of the frame (not a copy).
+func (f *FrameV1) VerifPooledSlice() []byte {
+	return f.pooledSlice
+}
